@@ -54,8 +54,10 @@ def _about(c, b):
 
 
 def _is_about(prog, b, node, cmap, depth=0):
+    """node: a node type name, or a tuple of admissible ones (every caller chain ends in a function about one of them)"""
     c = b["_crate"]
-    if node in _about(c, b):
+    nodes_ = set(node) if isinstance(node, (tuple, set, list)) else {node}
+    if nodes_ & _about(c, b):
         return True
     if depth > 3:
         return False
@@ -91,8 +93,17 @@ def rule_message_site(prog):
             for b, node, parents in lst:
                 n += 1
                 wants = want if isinstance(want, tuple) else (want,)
+                verdict_ = _is_about(prog, b, tuple(wants), cmap)
+                if not verdict_:
+                    # a message table keyed by a classification of the checker's own (`match kind { Arithmetic => .., Comparison => .. }`):
+                    # which caller can reach which entry is decided by the values it passes, not by who calls the table
+                    for pr_ in parents:
+                        if pr_.get("k") == "Arm":
+                            vs_ = hir.pat_variants_all(pr_["pat"])
+                            if vs_ and all(v_.startswith("spl_frontend::table::") for v_ in vs_):
+                                verdict_ = None
                 out.add("error::%s::%s" % (enum, v), "is reported while checking a %s" % wants[0],
-                        any(_is_about(prog, b, w_, cmap) for w_ in wants), c.loc(node["sp"]),
+                        verdict_, c.loc(node["sp"]),
                         "`%s` is constructed in `%s`, a function that is not about `%s` nodes: a diagnostic would name the wrong rule"
                         % (v, b["d"], " / ".join(wants)), ("site",))
     # finer arm -> message tables
@@ -204,7 +215,7 @@ def rule_message_site(prog):
                 got = set()
                 for a_ in arms[kind_]:
                     # (not through the dispatch itself: `u.expr.analyze(..)` re-enters it for the operand, whose checks are not the operator's)
-                    for x in hir.nodes_deep(prog, a_["body"], 2, {b["p"]}, crate=c):
+                    for x in hir.nodes_deep(prog, a_["body"], 4, {b["p"]}, crate=c):
                         if x.get("k") == "Path" and x["res"].get("ctor_of", "").startswith(SEM):
                             got.add(last(x["res"]["ctor_of"]))
                 n += 1
@@ -271,14 +282,24 @@ def rule_display_fields(prog):
             out.add("Display for DataType", "shows int / boolean / array size and element type", {"int", "boolean"} <= set(lits) and {"size", "base_type"} <= used,
                     c.loc(b["sp"]), "literals %s, array fields used %s" % (lits[:6], sorted(used)))
             continue
-        read = set(f["name"] for f in hir.nodes(b["body"], "Field") if (place(f["base"]) or "").startswith("self#"))
+        def self_fields(root):
+            """fields of self read below root, also inside methods of the same type that are called on self (`self.parameter_list()`)"""
+            res_ = set(f["name"] for f in hir.nodes(root, "Field") if (place(f["base"]) or "").startswith("self#"))
+            for mc_ in hir.nodes(root, "MethodCall"):
+                if (place(hir.strip_ref(hir.strip(mc_["recv"]))) or "").startswith("self#"):
+                    hb_ = hir.local_callee_body(prog, mc_)
+                    if hb_ is not None and hb_["_crate"] is c and "impl_self" in hb_ and hb_.get("impl_self") == b.get("impl_self"):
+                        res_ |= set(f["name"] for f in hir.nodes(hb_["body"], "Field") if (place(f["base"]) or "").startswith("self#"))
+            return res_
+
+        read = self_fields(b["body"])
         out.add("Display for " + last(st), "signature shows %s" % sorted(want[st]), want[st] <= read, c.loc(b["sp"]),
                 "fields read: %s — a signature that omits the reference marker, the name or the type does not tell the truth" % sorted(read))
         # ... on every path: each `write!` of the impl prints all of them (an arm that prints less shows some entries without name/kind)
         writes = [x for x in hir.nodes(b["body"], "MethodCall") if x["m"] == "write_fmt"]
         if len(writes) > 1:
             for wi, w_ in enumerate(writes):
-                rd = set(f["name"] for f in hir.nodes(w_, "Field") if (place(f["base"]) or "").startswith("self#"))
+                rd = self_fields(w_)
                 # values bound earlier from self fields (match scrutinee / lets) count when the write uses the binding
                 txt = " ".join(hir.format_text(w_))
                 okw = (want[st] - {"data_type"}) <= rd and (st not in kind_word or kind_word[st] in txt)
@@ -360,10 +381,39 @@ def rule_builtin_set(prog):
     for call in hir.nodes(ini[0]["body"], "Call"):
         if last(hir.callee(call) or "") == "from" and "HashMap" in c.tstr(call["t"]):
             arr = hir.strip(call["args"][0])
+            pl_ = hir.path_local(arr)
+            if pl_:
+                # (the array may be bound to a local first)
+                for l_ in hir.nodes(ini[0]["body"], "Let"):
+                    if l_["pat"].get("k") == "Binding" and l_["pat"]["id"] == pl_["id"] and l_.get("init") is not None:
+                        arr = hir.strip(l_["init"])
             for tup in arr.get("es", []):
                 tup = hir.strip(tup)
                 if tup.get("k") == "Tup" and tup["es"]:
                     keys.append(name_of(tup["es"][0]))
+                elif tup.get("k") == "Call":
+                    # an entry built by a local constructor that returns `(key, entry)` with the key made from one of its parameters
+                    hb_ = hir.local_callee_body(prog, tup)
+                    key_ = None
+                    if hb_ is not None and hb_["_crate"] is c:
+                        tails = [hir.strip(x_) for x_ in hir.nodes(hb_["body"], "Tup") if len(x_.get("es") or []) == 2]
+                        for tl_ in tails:
+                            k0 = hir.strip(tl_["es"][0])
+                            while k0.get("k") == "MethodCall" and k0["m"] in ("to_string", "to_owned", "into", "clone"):
+                                k0 = hir.strip_ref(hir.strip(k0["recv"]))
+                            kp = hir.path_local(k0)
+                            # (the key may be bound to a local first)
+                            if kp:
+                                for l2 in hir.nodes(hb_["body"], "Let"):
+                                    if l2["pat"].get("k") == "Binding" and l2["pat"]["id"] == kp["id"] and l2.get("init") is not None:
+                                        k0 = hir.strip(l2["init"])
+                                        while k0.get("k") == "MethodCall" and k0["m"] in ("to_string", "to_owned", "into", "clone"):
+                                            k0 = hir.strip_ref(hir.strip(k0["recv"]))
+                                        kp = hir.path_local(k0) or kp
+                            for j_, q_ in enumerate(hb_["params"]):
+                                if kp and q_.get("k") == "Binding" and q_["id"] == kp["id"] and j_ < len(tup["args"]):
+                                    key_ = name_of(tup["args"][j_])
+                    keys.append(key_)
     out.add("table::initialization", "DEFAULT_ENTRIES == names entered by GlobalTable::initialized()",
             None not in listed and None not in keys and sorted(listed) == sorted(keys) and len(keys) > 0, c.loc(de["sp"]),
             "listed %s / entered %s: a builtin that is not listed is treated as a user declaration with the empty range 0..0"
@@ -421,6 +471,34 @@ def rule_relex_window(prog):
         init = defs[cut]
         ok = any(m["m"] == "last" for m in hir.nodes(init, "MethodCall")) and any(f["name"] == "end" for f in hir.nodes(init, "Field"))
     out.add("lexer::update", "re-lexing starts at the end of the last unaffected token", ok, c.loc(b["sp"]), "")
+    # every way through update() runs the lexer over the text behind the untouched head: a path that answers without lexing (a "fast
+    # path" for changes that look harmless - white space, an empty insertion) applies a change to the token vector that was never lexed
+    def ev_relex(n_):
+        if n_.get("k") == "Call" and (hir.callee(n_) or "").endswith("nom::combinator::iterator"):
+            return ("relex", n_)
+        if n_.get("k") == "Path" and n_["res"].get("k") == "Def" and (n_["res"].get("rp") or n_["res"].get("p") or "").endswith("::lex") and \
+                "Lexer" in (n_["res"].get("d") or n_["res"].get("p") or ""):
+            return ("relex", n_)
+        if n_.get("k") == "Call":
+            hb_ = hir.local_callee_body(prog, n_)
+            if hb_ is not None and hb_["_crate"] is c and hb_["p"] != b["p"] and any(
+                    x_.get("k") == "Call" and (hir.callee(x_) or "").endswith("nom::combinator::iterator") for x_ in hir.nodes(hb_["body"])):
+                return ("relex", n_)
+        return None
+    try:
+        from . import flow
+        ps_r = flow.paths(b["body"], ev_relex)
+        has_any = any(any(e_[0] == "relex" for e_ in p_) for p_ in ps_r)
+        skipping = [p_ for p_ in ps_r if not any(e_[0] == "relex" for e_ in p_) and not (p_ and p_[-1][0] == "panic")]
+        # (paths that end in a panic!/expect are not answers)
+        if has_any:
+            where = next((e_[1] for p_ in skipping for e_ in p_ if e_[0] == "return" and isinstance(e_[1], dict)), b)
+            out.add("lexer::update", "every path through update() lexes the text behind the untouched head", not skipping, c.loc(where["sp"]),
+                    "%d of %d paths return a token vector and a TokenChange without having run the lexer: whatever the change inserted or "
+                    "joined on that path is never tokenised (white space in the sense of `str::trim` is not what the lexer skips; a deletion "
+                    "can join two tokens)" % (len(skipping), len(ps_r)), ("relex",))
+    except OverflowError:
+        pass
     # window
     tc = [call for call in hir.nodes(b["body"], "Call") if (hir.callee_display(call) or "") == "tokens::TokenChange::new"]
     conc = [m for m in hir.nodes(b["body"], "MethodCall") if m["m"] == "concat"]
@@ -617,6 +695,16 @@ def rule_update_order(prog):
     i_lex = idx(lambda n: n.get("k") == "Call" and (hir.callee(n) or "").endswith("lexer::update"))
     i_par = idx(lambda n: n.get("k") == "Call" and (hir.callee(n) or "").endswith("parser::update"))
     i_tok = idx(lambda n: n.get("k") == "Assign" and (place(n["l"]) or "").endswith(".tokens"))
+    # (the new tokens may also stay in the local they were bound to by `let (tokens, change) = lexer::update(..)` and be stored when
+    #  the struct is put together again: then "stored" is the binding itself)
+    lex_bind = None
+    for l_ in hir.nodes(blk, "Let"):
+        if l_.get("init") is not None and hir.strip(l_["init"]).get("k") == "Call" and (hir.callee(hir.strip(l_["init"])) or "").endswith("lexer::update"):
+            bs_ = list(hir.pat_bindings(l_["pat"]))
+            if len(bs_) == 2:
+                lex_bind = ("%s#%s" % (bs_[0]["name"], bs_[0]["id"]), "%s#%s" % (bs_[1]["name"], bs_[1]["id"]))
+    if i_tok is None and lex_bind is not None:
+        i_tok = i_lex
     ok = None not in (i_rep, i_lex, i_par, i_tok) and i_rep < i_lex <= i_tok < i_par or (None not in (i_rep, i_lex, i_par, i_tok) and i_rep < i_lex < i_par and i_tok < i_par)
     out.add("AnalyzedSource::update", "edit text -> update tokens -> store tokens -> update AST, per change", bool(ok), c.loc(b["sp"]),
             "statement indices: replace_range %s, lexer::update %s, tokens assigned %s, parser::update %s" % (i_rep, i_lex, i_tok, i_par))
@@ -635,8 +723,12 @@ def rule_update_order(prog):
                 if len(bs_) == 2:
                     tc_bind = "%s#%s" % (bs_[1]["name"], bs_[1]["id"])
         nw = [n for n in hir.nodes(par[0], "Call") if (hir.callee_display(n) or "").endswith("new_with_change")]
-        ok = ch_lex == ch_rep and bool(nw) and place(nw[0]["args"][1]) == tc_bind and (place(nw[0]["args"][0]) or "").endswith(".tokens") \
-            and (place(lex[0]["args"][0]) or "").endswith(".text")
+        toks_arg = place(hir.strip_ref(hir.strip(nw[0]["args"][0]))) or "" if nw else ""
+        text_arg = place(hir.strip_ref(hir.strip(lex[0]["args"][0]))) or ""
+        edited = place(hir.strip_ref(hir.strip(rep[0]["recv"]))) or ""
+        new_tokens_ok = toks_arg.endswith(".tokens") or (lex_bind is not None and toks_arg == lex_bind[0])
+        text_ok = text_arg.endswith(".text") or (edited != "" and text_arg == edited)
+        ok = ch_lex == ch_rep and bool(nw) and place(nw[0]["args"][1]) == tc_bind and new_tokens_ok and text_ok
     reord = [n for n in hir.nodes_deep(prog, b["body"], 2, crate=c) if n.get("k") == "MethodCall" and n["m"] in (
         "rev", "reverse", "sort", "sort_by", "sort_by_key", "sort_unstable", "sort_unstable_by", "sort_unstable_by_key", "sort_by_cached_key",
         "dedup", "dedup_by", "dedup_by_key", "retain")
@@ -660,12 +752,18 @@ def rule_diag_flag(prog):
         return out
     ok = False
     detail = ""
+    defs_i = {l_["pat"]["id"]: l_["init"] for l_ in hir.nodes(ini[0]["body"], "Let") if l_["pat"].get("k") == "Binding" and l_.get("init") is not None}
     for a in hir.nodes(ini[0]["body"], "Assign"):
         if (place(a["l"]) or "").endswith(".client_details.diagnostics"):
-            reads = [f["name"] for f in hir.nodes(a["r"], "Field")]
-            ok = "publish_diagnostics" in reads and any(m["m"] == "is_some" for m in hir.nodes(a["r"], "MethodCall"))
+            # (the value may be computed into a local first)
+            rhs = [a["r"]]
+            pl_ = hir.path_local(hir.strip(a["r"]))
+            if pl_ and pl_["id"] in defs_i:
+                rhs.append(defs_i[pl_["id"]])
+            reads = [f["name"] for r_ in rhs for f in hir.nodes(r_, "Field")]
+            ok = "publish_diagnostics" in reads and any(m["m"] == "is_some" for r_ in rhs for m in hir.nodes(r_, "MethodCall"))
             # the Option that is tested is the capability itself, not an Option wrapped around it
-            for m in hir.nodes(a["r"], "MethodCall"):
+            for m in [m_ for r_ in rhs for m_ in hir.nodes(r_, "MethodCall")]:
                 if m["m"] in ("is_some", "is_none"):
                     t = c.tstr(m["recv"]["t"]).replace(" ", "")
                     for ad in m["recv"].get("adj") or []:
@@ -689,7 +787,7 @@ def rule_ident_range(prog):
     """hover and prepare-rename answer with exactly the range of the identifier token under the cursor."""
     out = Out("IDENT-RANGE")
     c = prog.lsp
-    IDENT = "lsp4spl::features::Ident"
+    IDENT = next((p_ for p_ in sorted(c.adts) if p_.startswith("lsp4spl::features::") and p_.endswith("::Ident")), "lsp4spl::features::Ident")
     n = 0
     for fn, callee_name in (("lsp4spl::features::hover::hover", "create_hover"), ("lsp4spl::features::references::prepare_rename", None)):
         b = prog.body(fn)
@@ -705,7 +803,7 @@ def rule_ident_range(prog):
                 pass
             n += 1
             out.add(b["d"], "the range answered is the cursor identifier's token range", ok, c.loc(cv["sp"]), "")
-    cur = [b for b in c.bodies if b["d"] == "features::DocumentCursor::ident"]
+    cur = [b for b in c.bodies if b["d"].startswith("features::") and b["d"].endswith("DocumentCursor::ident")]
     if cur:
         ok = False
         for s in hir.nodes(cur[0]["body"], "Struct"):
@@ -1100,7 +1198,21 @@ def rule_doc_flow(prog):
         for ix in hir.nodes(b["body"], "Index"):
             if from_param(ix["base"]):
                 bad = ix
-        out.add(b["d"], "the documentation is the concatenation of all doc-comment lines", joined and bad is None,
+        # loop form: `for line in docs { text.push_str(line) }` over the whole parameter, every iteration appending
+        for fl in hir.nodes(b["body"], "ForLoop"):
+            if from_param(fl.get("iter") or {}) and fl.get("pat") is not None:
+                lids = {bd["id"] for bd in hir.pat_bindings(fl["pat"])}
+                blk_ = hir.strip(fl["body"])
+                top = (blk_["b"]["stmts"] + ([blk_["b"]["expr"]] if blk_["b"].get("expr") else [])) if blk_.get("k") == "BlockExpr" else [blk_]
+                for st_ in top:
+                    in_ = hir.stmt_inner(st_) or (st_ if st_.get("k") == "MethodCall" else None)
+                    if in_ is not None and in_.get("k") == "MethodCall" and in_["m"] in ("push_str", "push", "extend", "add_assign") and any(
+                            (hir.path_local(hir.strip_ref(hir.strip(x_))) or {}).get("id") in lids for a_ in in_["args"] for x_ in hir.nodes(a_)):
+                        joined = True
+                    if in_ is not None and in_.get("k") == "AssignOp" and in_.get("op") == "+=" and any(
+                            (hir.path_local(x_) or {}).get("id") in lids for x_ in hir.nodes(in_["r"], "Path")):
+                        joined = True
+        out.add(b["d"], "the documentation is the concatenation of all doc-comment lines", (joined and bad is None) if (joined or bad is not None) else None,
                 c.loc((bad or b)["sp"]), ("`%s` on the comment lines: the documentation shown by hover / signature help / completion "
                                           "depends on individual lines (a blank `//` line, the first line, ...) instead of being the whole block"
                                           % (bad.get("m") or "index")) if bad else "no concat/join of the lines found")
